@@ -71,6 +71,9 @@ def run(tier, v):
     # one violation per TLC run: validate run by run groups so that several findings surface
     bad, _, st = E.judge(files, "TransferObs", "TransferObs_c11.cfg", v, details, "obs", keyfn=keyfn, timeout=3000)
     cov["traces_validated_against_impl"] = s["runs"]
+    # a pipeline goroutine held at each of its blocking operations while the peer falls silent / the
+    # connection breaks (and held only, as a schedule perturbation)
+    E.run_points(h, "silence,writeerr,none", "TransferObs_c11.cfg", v, cov, tier, keyfn=keyfn)
     cov["fault_kinds"] = {k[5:]: s[k] for k in s if k.startswith("kind_")}
     cov["tv_states"] = st
     cov["obs_files_rejected"] = bad
